@@ -611,9 +611,9 @@ theorem runInv_step (S : Spec) (s s' : State) (ev : Event) (inv : RunInv S s)
       · intro g hg
         rcases List.mem_append.1 hg with hg | hg
         · exact inv.external g hg
-        · simp at hg; subst hg; exact hc.2
+        · simp at hg; subst hg; exact hc
       · intro e he
-        exact exInv_recv S s e f (inv.ex e he) _ rfl rfl (by simpa [live] using hc.1)
+        exact exInv_recv S s e f (inv.ex e he) _ rfl rfl (by simpa [live] using (inv.ex e he).alive)
       · intro g hg
         rcases List.mem_append.1 hg with hg | hg
         · exact List.mem_append_left _ (inv.buf_sub g hg)
@@ -909,12 +909,12 @@ theorem step_history (S : Spec) (s s' : State) (ev : Event) (h : step Variant.cu
   case noMessage => split at h <;> simp at h; subst h; exact Or.inl rfl
   case finishRun => split at h <;> simp at h; subst h; exact Or.inl rfl
 
-/-- a failed or finished run takes no further event (any variant) -/
-theorem step_dead (V : Variant) (S : Spec) (s : State) (ev : Event) (h : live s = false) :
-    step V S s ev = none := by
+/-- a failed or finished run takes no further event except data still arriving (any variant) -/
+theorem step_dead (V : Variant) (S : Spec) (s : State) (ev : Event) (h : live s = false)
+    (hne : ∀ f, ev ≠ .recv f) : step V S s ev = none := by
   have hl : ¬ (live s = true) := by simp [h]
   cases ev <;> simp only [step]
-  case recv f => simp [hl]
+  case recv f => exact absurd rfl (hne f)
   case fuzzerTurn m => simp [hl]
   case exStart => simp [hl]
   case exStep => split <;> simp [hl]
@@ -923,6 +923,14 @@ theorem step_dead (V : Variant) (S : Spec) (s : State) (ev : Event) (h : live s 
   case unexpected => simp [hl]
   case noMessage => simp [hl]
   case finishRun => simp [hl]
+
+/-- data arriving changes the buffer (and the ghost record of what was received), nothing else -/
+theorem step_recv_effect (V : Variant) (S : Spec) (s s' : State) (f : Frag) (h : step V S s (.recv f) = some s') :
+    s' = { s with buffer := s.buffer ++ [f], recvd := s.recvd ++ [f] } := by
+  simp only [step] at h
+  split at h
+  · injection h with h; exact h.symm
+  · simp at h
 
 end Io
 end FV
